@@ -627,9 +627,9 @@ func (i *interpreter) decodeRune(b []value) (value, int) {
 
 // symStringIter implements range over a string with symbolic bytes.
 type symStringIter struct {
-	i    *interpreter
-	b    []value
-	off  int
+	i   *interpreter
+	b   []value
+	off int
 }
 
 func (it *symStringIter) next() tuple {
